@@ -85,7 +85,7 @@ func checkC03(c *Ctx) error {
 	}
 	injectorCoverage(c, st, queries)
 	c.Coverage["success_execution_infeasible"] = vacuous
-	if vacuous > 0 {
+	if vacuous > 0 && c.Violations == 0 && len(c.Known) == 0 {
 		return fmt.Errorf("vacuity guard: %d injectors admit no all-success execution in the encoding", vacuous)
 	}
 	return nil
